@@ -116,7 +116,7 @@ structure Rel (cmp : Op → A → A → Bool) (id : Name) (hdr : Hdr) (s : Strea
   maps : ∀ r : List (NCell A), wsRow hdr r = true →
     ∃ it, refItem hdr (applyInner cmp hdr st.iconds r) st.layout = some it ∧ evalMaps cmp s.imap (.row r) = .ok it
   tmpl : match st.layout with
-    | .table vs => s.template = .outer vs ∧ s.level = 0 ∧ (∀ k ∈ vs, k ∈ hdr.names) ∧ vs.Nodup
+    | .table vs => s.template = .outer vs ∧ s.level = 0 ∧ (∀ k ∈ vs, k ∈ hdr.names)
     | .column k => s.template = .base (id ++ '.' :: k) ∧ s.level = 1
     | .innerTable n vs => ∃ keys, innerKeys hdr n = some keys ∧ s.template = .inner n vs ∧ s.level = 1
         ∧ (∀ k ∈ vs, k ∈ keys)
@@ -166,9 +166,9 @@ theorem rel_inner_maps {cmp : Op → A → A → Bool} {id : Name} {hdr : Hdr} {
 /-! ### child and column selections -/
 
 theorem step_str {cmp : Op → A → A → Bool} {lit : List Char → Option A} {id : Name} {hdr : Hdr}
-    (hh : wsHdr hdr = true) {strict : Bool}
+    (hh : wsHdr hdr = true)
     {s : Stream A} {st st' : Ref A} {key : Name}
-    (hrel : Rel cmp id hdr s st) (hstep : refStep strict lit id hdr st (.str key) = some st') :
+    (hrel : Rel cmp id hdr s st) (hstep : refStep lit id hdr st (.str key) = some st') :
     ∃ s', getitem lit s (.str key) = .ok s' ∧ Rel cmp id hdr s' st' ∧ s'.src = s.src := by
   obtain ⟨hid, hhdr⟩ := hrel.ids
   simp only [refStep] at hstep
@@ -179,7 +179,7 @@ theorem step_str {cmp : Op → A → A → Bool} {lit : List Char → Option A} 
     simp only [hl] at hstep
     have ht := hrel.tmpl
     simp only [hl] at ht
-    obtain ⟨htm, hlev, hsub, hvnd⟩ := ht
+    obtain ⟨htm, hlev, hsub⟩ := ht
     by_cases hk : key ∈ vs
     · simp only [hk, if_true] at hstep
       cases hlk : hdr.lookup key with
@@ -275,9 +275,9 @@ theorem step_str {cmp : Op → A → A → Bool} {lit : List Char → Option A} 
     · simp [hk] at hstep
 
 
-theorem step_list {cmp : Op → A → A → Bool} {lit : List Char → Option A} {id : Name} {hdr : Hdr} {strict : Bool}
+theorem step_list {cmp : Op → A → A → Bool} {lit : List Char → Option A} {id : Name} {hdr : Hdr}
     {s : Stream A} {st st' : Ref A} {keys : List Name}
-    (hrel : Rel cmp id hdr s st) (hstep : refStep strict lit id hdr st (.list keys) = some st') :
+    (hrel : Rel cmp id hdr s st) (hstep : refStep lit id hdr st (.list keys) = some st') :
     ∃ s', getitem lit s (.list keys) = .ok s' ∧ Rel cmp id hdr s' st' ∧ s'.src = s.src := by
   simp only [refStep] at hstep
   cases hl : st.layout with
@@ -285,17 +285,16 @@ theorem step_list {cmp : Op → A → A → Bool} {lit : List Char → Option A}
   | innerColumn n k => simp [hl] at hstep
   | table vs =>
     simp only [hl] at hstep
-    by_cases hk : (keys.all (· ∈ vs) && decide keys.Nodup) = true
+    by_cases hk : keys.all (· ∈ vs) = true
     · simp only [hk, if_true, Option.some.injEq] at hstep
       subst hstep
-      simp only [Bool.and_eq_true, decide_eq_true_eq] at hk
       have hmem : ∀ k ∈ keys, k ∈ vs := by
         intro k hkm
-        have := List.all_eq_true.mp hk.1 k hkm
+        have := List.all_eq_true.mp hk k hkm
         simpa using this
       have ht := hrel.tmpl
       simp only [hl] at ht
-      obtain ⟨htm, hlev, hsub, _⟩ := ht
+      obtain ⟨htm, hlev, hsub⟩ := ht
       have hcols := all_mem_mapM_indexOf vs keys hmem
       refine ⟨{ s with template := .outer keys,
                        imap := s.imap ++ [.proj (keys.map vs.idxOf) (s.level + 1)] }, ?_, ?_, rfl⟩
@@ -310,7 +309,7 @@ theorem step_list {cmp : Op → A → A → Bool} {lit : List Char → Option A}
           show evalMap cmp (.proj (keys.map vs.idxOf) 1) (.row cells) = _
           simp only [evalMap, if_true, h2]
           rfl
-        · exact ⟨rfl, hlev, fun k hk' => hsub k (hmem k hk'), hk.2⟩
+        · exact ⟨rfl, hlev, fun k hk' => hsub k (hmem k hk')⟩
     · simp [hk] at hstep
   | innerTable n vs =>
     simp only [hl] at hstep
@@ -374,221 +373,168 @@ theorem id1_of_resolve {lit : List Char → Option A} {parent : Name} {keys : Li
 theorem evalMap_ident (cmp : Op → A → A → Bool) (x : Item A) : evalMap cmp .ident x = .ok x := by
   cases x <;> rfl
 
-/-- the map of a nested filter filters the named child of the current row exactly as the reference
-    filters it in the source row -/
-theorem nest_map (cmp : Op → A → A → Bool) {hdr : Hdr} {n : Name} {keys : List Name}
+/-- the map of a nested filter, applied to a source row, filters the records of the named child exactly
+    as the reference does -/
+theorem nest_front (cmp : Op → A → A → Bool) {hdr : Hdr} {n : Name} {keys : List Name}
     (hik : innerKeys hdr n = some keys) (rc : RCond A) (f : Filt A)
     (hf : ∀ ir : List A, ir.length = keys.length → evalFilt cmp f ir = .ok (refCond cmp keys ir rc))
-    {vs : List Name} (hsub : ∀ k ∈ vs, k ∈ hdr.names) (hvnd : vs.Nodup)
-    (r : List (NCell A)) (hr : wsRow hdr r = true) (cells : List (NCell A))
-    (hc : vs.mapM (cellOf hdr.names r) = some cells) :
-    ∃ cells', vs.mapM (cellOf hdr.names (applyOne cmp hdr (n, rc) r)) = some cells' ∧
-      evalMap cmp (.nest (indexOf? vs n) f) (.row cells) = .ok (.row cells') := by
+    (r : List (NCell A)) (hr : wsRow hdr r = true) :
+    evalMap cmp (.nest (hdr.names.idxOf n) f) (.row r) = .ok (.row (applyOne cmp hdr (n, rc) r)) := by
   have hlk := innerKeys_lookup hik
   have hn : n ∈ hdr.names := lookup_mem hlk
-  obtain ⟨c, hc1, hc2, hc3⟩ := cell_of_name hr hlk
+  obtain ⟨c, _, hc2, hc3⟩ := cell_of_name hr hlk
   obtain ⟨rows, rfl, hrows⟩ := wsCell_seq hc3
-  have hj : hdr.names.idxOf n < r.length := by
-    rw [wsRow_length hdr r hr]; exact List.idxOf_lt_length_iff.mpr hn
   have happ : applyOne cmp hdr (n, rc) r =
       r.set (hdr.names.idxOf n) (.seq (rows.filter fun ir => refCond cmp keys ir rc)) := by
     simp [applyOne, indexOf?_of_mem hn, hik, hc2]
-  have hlen : cells.length = vs.length := optMapM_length _ _ _ hc
-  by_cases hnv : n ∈ vs
-  · have hi : vs.idxOf n < vs.length := List.idxOf_lt_length_iff.mpr hnv
-    have hcell : cells[vs.idxOf n]? = some (.seq rows) := by
-      rw [optMapM_getElem? _ vs cells hc (vs.idxOf n) n (getElem?_idxOf hnv), hc1]
-    have hfe := filterE_ok (evalFilt cmp f) (fun ir => refCond cmp keys ir rc) rows
-      (fun ir hir => hf ir (hrows ir hir))
-    refine ⟨cells.set (vs.idxOf n) (.seq (rows.filter fun ir => refCond cmp keys ir rc)), ?_, ?_⟩
-    · rw [happ]
-      apply optMapM_of_getElem _ _ _ (by rw [List.length_set, hlen])
-      intro idx hidx
-      have hmem : vs[idx] ∈ vs := List.getElem_mem hidx
-      have hmemn := hsub _ hmem
-      by_cases he : idx = vs.idxOf n
-      · have hvn : vs[idx] = n := by subst he; exact List.getElem_idxOf hi
-        simp only [cellOf, hvn, indexOf?_of_mem hn]
-        rw [List.getElem?_set_self hj, he, List.getElem?_set_self (by omega)]
-      · have hne : hdr.names.idxOf n ≠ hdr.names.idxOf vs[idx] := by
-          intro e
-          have := idxOf_inj hn e
-          apply he
-          rw [← hvnd.idxOf_getElem idx hidx, ← this]
-        have hne' : vs.idxOf n ≠ idx := fun e => he e.symm
-        simp only [cellOf, indexOf?_of_mem hmemn]
-        rw [List.getElem?_set_ne hne, List.getElem?_set_ne hne']
-        have := optMapM_getElem? _ vs cells hc idx vs[idx] (List.getElem?_eq_getElem hidx)
-        rw [this]
-        simp [cellOf, indexOf?_of_mem hmemn]
-    · simp only [indexOf?_of_mem hnv, evalMap, hcell, hfe]
-      rfl
-  · refine ⟨cells, ?_, by simp [indexOf?_none hnv, evalMap]⟩
-    rw [← hc, happ]
-    apply optMapM_congr
-    intro k hk
-    have hkn := hsub k hk
-    have hne : hdr.names.idxOf n ≠ hdr.names.idxOf k := by
-      intro e
-      exact hnv (idxOf_inj hn e ▸ hk)
-    simp only [cellOf, indexOf?_of_mem hkn]
-    rw [List.getElem?_set_ne hne]
+  have hfe := filterE_ok (evalFilt cmp f) (fun ir => refCond cmp keys ir rc) rows
+    (fun ir hir => hf ir (hrows ir hir))
+  simp only [evalMap, hc2, hfe, happ]
+  rfl
 
 theorem step_cond {cmp : Op → A → A → Bool} {lit : List Char → Option A} {id : Name} {hdr : Hdr}
     {s : Stream A} {st st' : Ref A} {c : Cond}
-    (hrel : Rel cmp id hdr s st) (hstep : refStep true lit id hdr st (.cond c) = some st') :
+    (hrel : Rel cmp id hdr s st) (hstep : refStep lit id hdr st (.cond c) = some st') :
     ∃ s', getitem lit s (.cond c) = .ok s' ∧ Rel cmp id hdr s' st' ∧ s'.src = s.src := by
   obtain ⟨hid, hhdr⟩ := hrel.ids
   simp only [refStep] at hstep
-  cases hl : st.layout with
-  | column k => simp [hl] at hstep
-  | innerColumn n k => simp [hl] at hstep
-  | innerTable n vs => simp [hl] at hstep
-  | table vs =>
-    simp only [hl] at hstep
-    have ht := hrel.tmpl
-    simp only [hl] at ht
-    obtain ⟨htm, hlev, hsub, hvnd⟩ := ht
-    cases hro : resolveOuter lit id hdr c with
-    | some rc =>
-      simp only [hro, Option.some.injEq] at hstep
+  cases hro : resolveOuter lit id hdr c with
+  | some rc =>
+    simp only [hro, Option.some.injEq] at hstep
+    subst hstep
+    -- a clause on base columns of the outer sequence: a level-0 filter, identity map in front
+    unfold resolveOuter at hro
+    cases hres : resolve lit id hdr.names c with
+    | none => simp [hres] at hro
+    | some rc' =>
+      simp only [hres] at hro
+      by_cases hbase : (isBase hdr rc'.c1 && rhsBase hdr rc'.rhs) = true
+      · simp only [hbase, if_true, Option.some.injEq] at hro
+        subst hro
+        simp only [Bool.and_eq_true] at hbase
+        obtain ⟨hb1, hb2⟩ := hbase
+        have hlk1 : hdr.lookup rc'.c1 = some none := by simpa [isBase] using hb1
+        obtain ⟨b, hb, hc1, hop, hshape⟩ := rhsOperand_of_resolve hres
+        obtain ⟨hid1, hnd⟩ := id1_of_resolve hres
+        have htok : splitOnChar '.' (c.id1.drop (id.length + 1)) = [rc'.c1] := by
+          rw [hid1, drop_prefix_dot]; exact splitOnChar_no_sep '.' _ hnd
+        refine ⟨{ s with ifilter := s.ifilter ++ [.cmp ⟨hdr.names.idxOf rc'.c1, c.op, b⟩],
+                         imap := .ident :: s.imap }, ?_, ?_, rfl⟩
+        · simp only [getitem, hid, hhdr, buildFilter, htok, indexOf?_of_mem hc1, hb]
+          rfl
+        · refine ⟨hrel.ids, ?_, ?_, hrel.tmpl, hrel.sl⟩
+          · intro r hr
+            have hf : evalNFilt cmp (.cmp ⟨hdr.names.idxOf rc'.c1, c.op, b⟩) r =
+                .ok (refOCond cmp hdr.names r rc') := by
+              obtain ⟨x, hx1, hx2, hx3⟩ := cell_of_name hr hlk1
+              obtain ⟨xa, rfl⟩ := wsCell_base hx3
+              rcases hshape with ⟨k2, hk2, hr2, rfl⟩ | ⟨v, hr2, rfl⟩
+              · rw [hr2] at hb2
+                have hlk2 : hdr.lookup k2 = some none := by simpa [rhsBase, isBase] using hb2
+                obtain ⟨y, hy1, hy2, hy3⟩ := cell_of_name hr hlk2
+                obtain ⟨ya, rfl⟩ := wsCell_base hy3
+                simp [evalNFilt, getCell, hx2, hy2, cellCmp, refOCond, hx1, hy1, hr2, hop]
+                rfl
+              · simp [evalNFilt, getCell, hx2, cellCmp, refOCond, hx1, hr2, hop]
+                rfl
+            have := evalNFilts_append cmp s.ifilter _ r _ _ (hrel.filt r hr) hf
+            show evalNFilts cmp (s.ifilter ++ [_]) r = .ok ((st.oconds ++ [rc']).all (refOCond cmp hdr.names r))
+            rw [this, List.all_append]
+            simp
+          · intro r hr
+            obtain ⟨it, h1, h2⟩ := hrel.maps r hr
+            refine ⟨it, h1, ?_⟩
+            show evalMaps cmp (.ident :: s.imap) (.row r) = _
+            simp only [evalMaps, evalMap_ident]
+            exact h2
+      · simp [hbase] at hro
+  | none =>
+    simp only [hro] at hstep
+    cases hri : resolveInner lit id hdr c with
+    | none => simp [hri] at hstep
+    | some nc =>
+      obtain ⟨n, rc⟩ := nc
+      simp only [hri, Option.map, Option.some.injEq] at hstep
       subst hstep
-      -- a clause on base columns of the outer sequence: a level-0 filter
-      unfold resolveOuter at hro
-      cases hres : resolve lit id hdr.names c with
-      | none => simp [hres] at hro
-      | some rc' =>
-        simp only [hres] at hro
-        by_cases hbase : (isBase hdr rc'.c1 && rhsBase hdr rc'.rhs) = true
-        · simp only [hbase, if_true, Option.some.injEq] at hro
-          subst hro
-          simp only [Bool.and_eq_true] at hbase
-          obtain ⟨hb1, hb2⟩ := hbase
-          have hlk1 : hdr.lookup rc'.c1 = some none := by simpa [isBase] using hb1
-          obtain ⟨b, hb, hc1, hop, hshape⟩ := rhsOperand_of_resolve hres
-          obtain ⟨hid1, hnd⟩ := id1_of_resolve hres
-          have htok : splitOnChar '.' (c.id1.drop (id.length + 1)) = [rc'.c1] := by
-            rw [hid1, drop_prefix_dot]; exact splitOnChar_no_sep '.' _ hnd
-          refine ⟨{ s with ifilter := s.ifilter ++ [.cmp ⟨hdr.names.idxOf rc'.c1, c.op, b⟩],
-                           imap := s.imap ++ [.ident] }, ?_, ?_, rfl⟩
-          · simp only [getitem, htm, hid, hhdr, buildFilter, htok, indexOf?_of_mem hc1, hb]
-            rfl
-          · refine ⟨hrel.ids, ?_, ?_, ?_, hrel.sl⟩
-            · intro r hr
-              have hf : evalNFilt cmp (.cmp ⟨hdr.names.idxOf rc'.c1, c.op, b⟩) r =
-                  .ok (refOCond cmp hdr.names r rc') := by
-                obtain ⟨x, hx1, hx2, hx3⟩ := cell_of_name hr hlk1
-                obtain ⟨xa, rfl⟩ := wsCell_base hx3
-                rcases hshape with ⟨k2, hk2, hr2, rfl⟩ | ⟨v, hr2, rfl⟩
-                · rw [hr2] at hb2
-                  have hlk2 : hdr.lookup k2 = some none := by simpa [rhsBase, isBase] using hb2
-                  obtain ⟨y, hy1, hy2, hy3⟩ := cell_of_name hr hlk2
-                  obtain ⟨ya, rfl⟩ := wsCell_base hy3
-                  simp [evalNFilt, getCell, hx2, hy2, cellCmp, refOCond, hx1, hy1, hr2, hop]
-                  rfl
-                · simp [evalNFilt, getCell, hx2, cellCmp, refOCond, hx1, hr2, hop]
-                  rfl
-              have := evalNFilts_append cmp s.ifilter _ r _ _ (hrel.filt r hr) hf
-              show evalNFilts cmp (s.ifilter ++ [_]) r = .ok ((st.oconds ++ [rc']).all (refOCond cmp hdr.names r))
-              rw [this, List.all_append]
-              simp
-            · intro r hr
-              obtain ⟨it, h1, h2⟩ := hrel.maps r hr
-              rw [hl] at h1
-              refine ⟨it, h1, ?_⟩
-              show evalMaps cmp (s.imap ++ [.ident]) (.row r) = _
-              rw [evalMaps_append, h2]
-              exact evalMap_ident cmp it
-            · exact ⟨htm, hlev, hsub, hvnd⟩
-        · simp [hbase] at hro
-    | none =>
-      simp only [hro] at hstep
-      cases hri : resolveInner lit id hdr c with
-      | none => simp [hri] at hstep
-      | some nc =>
-        obtain ⟨n, rc⟩ := nc
-        simp only [hri, Option.map, Option.some.injEq] at hstep
-        subst hstep
-        -- a clause on columns of the nested sequence `n`: `bool` filter and the nested map
-        unfold resolveInner at hri
-        cases hsp : rsplitDot c.id1 with
-        | none => simp [hsp] at hri
-        | some pp =>
-          obtain ⟨p, x⟩ := pp
-          simp only [hsp] at hri
-          cases hsp2 : rsplitDot p with
-          | none => simp [hsp2] at hri
-          | some qq =>
-            obtain ⟨q, n'⟩ := qq
-            simp only [hsp2] at hri
-            cases hik : innerKeys hdr n' with
-            | none => simp [hik] at hri
-            | some keys =>
-              simp only [hik] at hri
-              by_cases hq : q = id
-              · simp only [hq, if_true] at hri
-                cases hres : resolve lit p keys c with
-                | none => simp [hres] at hri
-                | some rc' =>
-                  simp only [hres, Option.map, Option.some.injEq, Prod.mk.injEq] at hri
-                  obtain ⟨rfl, rfl⟩ := hri
-                  obtain ⟨hp, hnd2⟩ := rsplitDot_some _ _ _ hsp2
-                  subst hq
-                  obtain ⟨b, hb, hc1, hop, hshape⟩ := rhsOperand_of_resolve hres
-                  obtain ⟨hid1, hnd⟩ := id1_of_resolve hres
-                  have hn : n' ∈ hdr.names := lookup_mem (innerKeys_lookup hik)
-                  have htok : splitOnChar '.' (c.id1.drop (q.length + 1)) = [n', rc'.c1] := by
-                    rw [hid1, hp]
-                    have : (q ++ '.' :: n') ++ '.' :: rc'.c1 = q ++ '.' :: (n' ++ '.' :: rc'.c1) := by simp
-                    rw [this, drop_prefix_dot, splitOnChar_append _ _ _ hnd2, splitOnChar_no_sep _ _ hnd]
-                  have hf : ∀ ir : List A, ir.length = keys.length →
-                      evalFilt cmp ⟨keys.idxOf rc'.c1, c.op, b⟩ ir = .ok (refCond cmp keys ir rc') := by
-                    intro ir hir
-                    obtain ⟨xv, hx1, hx2⟩ := cellOf_some keys ir hir hc1
-                    rcases hshape with ⟨k2, hk2, hr2, rfl⟩ | ⟨v, hr2, rfl⟩
-                    · obtain ⟨yv, hy1, hy2⟩ := cellOf_some keys ir hir hk2
-                      simp [evalFilt, evalOperand, hx2, hy2, refCond, hx1, hy1, hr2, hop]
-                      rfl
-                    · simp [evalFilt, evalOperand, hx2, refCond, hx1, hr2, hop]
-                      rfl
-                  refine ⟨{ s with ifilter := s.ifilter ++ [.truthy],
-                                   imap := s.imap ++ [.nest (indexOf? vs n') ⟨keys.idxOf rc'.c1, c.op, b⟩] },
-                    ?_, ?_, rfl⟩
-                  · simp only [getitem, htm, hid, hhdr, buildFilter, htok, indexOf?_of_mem hn, hik,
-                      indexOf?_of_mem hc1]
-                    rw [← hp, hb]
+      -- a clause on columns of the nested sequence `n`: `bool` filter and the nested map in front
+      unfold resolveInner at hri
+      cases hsp : rsplitDot c.id1 with
+      | none => simp [hsp] at hri
+      | some pp =>
+        obtain ⟨p, x⟩ := pp
+        simp only [hsp] at hri
+        cases hsp2 : rsplitDot p with
+        | none => simp [hsp2] at hri
+        | some qq =>
+          obtain ⟨q, n'⟩ := qq
+          simp only [hsp2] at hri
+          cases hik : innerKeys hdr n' with
+          | none => simp [hik] at hri
+          | some keys =>
+            simp only [hik] at hri
+            by_cases hq : q = id
+            · simp only [hq, if_true] at hri
+              cases hres : resolve lit p keys c with
+              | none => simp [hres] at hri
+              | some rc' =>
+                simp only [hres, Option.map, Option.some.injEq, Prod.mk.injEq] at hri
+                obtain ⟨rfl, rfl⟩ := hri
+                obtain ⟨hp, hnd2⟩ := rsplitDot_some _ _ _ hsp2
+                subst hq
+                obtain ⟨b, hb, hc1, hop, hshape⟩ := rhsOperand_of_resolve hres
+                obtain ⟨hid1, hnd⟩ := id1_of_resolve hres
+                have hn : n' ∈ hdr.names := lookup_mem (innerKeys_lookup hik)
+                have htok : splitOnChar '.' (c.id1.drop (q.length + 1)) = [n', rc'.c1] := by
+                  rw [hid1, hp]
+                  have : (q ++ '.' :: n') ++ '.' :: rc'.c1 = q ++ '.' :: (n' ++ '.' :: rc'.c1) := by simp
+                  rw [this, drop_prefix_dot, splitOnChar_append _ _ _ hnd2, splitOnChar_no_sep _ _ hnd]
+                have hf : ∀ ir : List A, ir.length = keys.length →
+                    evalFilt cmp ⟨keys.idxOf rc'.c1, c.op, b⟩ ir = .ok (refCond cmp keys ir rc') := by
+                  intro ir hir
+                  obtain ⟨xv, hx1, hx2⟩ := cellOf_some keys ir hir hc1
+                  rcases hshape with ⟨k2, hk2, hr2, rfl⟩ | ⟨v, hr2, rfl⟩
+                  · obtain ⟨yv, hy1, hy2⟩ := cellOf_some keys ir hir hk2
+                    simp [evalFilt, evalOperand, hx2, hy2, refCond, hx1, hy1, hr2, hop]
                     rfl
-                  · refine ⟨hrel.ids, ?_, ?_, ?_, hrel.sl⟩
-                    · intro r hr
-                      have hne : evalNFilt cmp .truthy r = .ok true := by
-                        have hlen := wsRow_length hdr r hr
-                        have : 0 < hdr.names.length := List.length_pos_of_mem hn
-                        cases r with
-                        | nil => simp at hlen; omega
-                        | cons _ _ => rfl
-                      have := evalNFilts_append cmp s.ifilter _ r _ _ (hrel.filt r hr) hne
-                      show evalNFilts cmp (s.ifilter ++ [.truthy]) r = _
-                      rw [this]
-                      simp
-                    · intro r hr
-                      obtain ⟨cells, hc, hm⟩ := rel_table_maps hrel hl r hr
-                      have hws := ws_applyInner cmp hdr st.iconds r hr
-                      obtain ⟨cells', h1, h2⟩ := nest_map cmp hik rc' ⟨keys.idxOf rc'.c1, c.op, b⟩ hf hsub hvnd
-                        _ hws cells hc
-                      refine ⟨.row cells', ?_, ?_⟩
-                      · show refItem hdr (applyInner cmp hdr (st.iconds ++ [(n', rc')]) r) (.table vs) = _
-                        rw [applyInner_append]
-                        simp [refItem, h1]
-                      · show evalMaps cmp (s.imap ++ [_]) (.row r) = _
-                        rw [evalMaps_append, hm]
-                        exact h2
-                    · exact ⟨htm, hlev, hsub, hvnd⟩
-              · simp [hq] at hri
+                  · simp [evalFilt, evalOperand, hx2, refCond, hx1, hr2, hop]
+                    rfl
+                refine ⟨{ s with ifilter := s.ifilter ++ [.truthy],
+                                 imap := .nest (hdr.names.idxOf n') ⟨keys.idxOf rc'.c1, c.op, b⟩ :: s.imap },
+                  ?_, ?_, rfl⟩
+                · simp only [getitem, hid, hhdr, buildFilter, htok, indexOf?_of_mem hn, hik,
+                    indexOf?_of_mem hc1]
+                  rw [← hp, hb]
+                  rfl
+                · refine ⟨hrel.ids, ?_, ?_, hrel.tmpl, hrel.sl⟩
+                  · intro r hr
+                    have hne : evalNFilt cmp .truthy r = .ok true := by
+                      have hlen := wsRow_length hdr r hr
+                      have : 0 < hdr.names.length := List.length_pos_of_mem hn
+                      cases r with
+                      | nil => simp at hlen; omega
+                      | cons _ _ => rfl
+                    have := evalNFilts_append cmp s.ifilter _ r _ _ (hrel.filt r hr) hne
+                    show evalNFilts cmp (s.ifilter ++ [.truthy]) r = _
+                    rw [this]
+                    simp
+                  · intro r hr
+                    -- the map filters the records of `n'` in the source row; the recorded maps then act
+                    -- on that row, and the reference's inner filters commute
+                    obtain ⟨it, h1, h2⟩ := hrel.maps _ (ws_applyOne cmp hdr (n', rc') r hr)
+                    refine ⟨it, ?_, ?_⟩
+                    · show refItem hdr (applyInner cmp hdr (st.iconds ++ [(n', rc')]) r) st.layout = _
+                      rw [applyInner_append, ← applyInner_comm]
+                      exact h1
+                    · show evalMaps cmp (_ :: s.imap) (.row r) = _
+                      simp only [evalMaps]
+                      rw [nest_front cmp hik rc' _ hf r hr]
+                      exact h2
+            · simp [hq] at hri
 
 
 theorem step_sim {cmp : Op → A → A → Bool} {lit : List Char → Option A} {id : Name} {hdr : Hdr}
     (hh : wsHdr hdr = true) {s : Stream A} {st st' : Ref A} (k : Key)
-    (hrel : Rel cmp id hdr s st) (hstep : refStep true lit id hdr st k = some st') :
+    (hrel : Rel cmp id hdr s st) (hstep : refStep lit id hdr st k = some st') :
     ∃ s', getitem lit s k = .ok s' ∧ Rel cmp id hdr s' st' ∧ s'.src = s.src := by
   cases k with
   | str key => exact step_str hh hrel hstep
@@ -606,7 +552,7 @@ theorem step_sim {cmp : Op → A → A → Bool} {lit : List Char → Option A} 
 theorem chain_sim {cmp : Op → A → A → Bool} {lit : List Char → Option A} {id : Name} {hdr : Hdr}
     (hh : wsHdr hdr = true) :
     ∀ (ops : List Key) (s : Stream A) (st st' : Ref A), Rel cmp id hdr s st →
-      refRun true lit id hdr st ops = some st' →
+      refRun lit id hdr st ops = some st' →
       ∃ s', chain lit s ops = .ok s' ∧ Rel cmp id hdr s' st' ∧ s'.src = s.src
   | [], s, st, st', hrel, h => by
     simp only [refRun, Option.some.injEq] at h
@@ -614,7 +560,7 @@ theorem chain_sim {cmp : Op → A → A → Bool} {lit : List Char → Option A}
     exact ⟨s, rfl, hrel, rfl⟩
   | k :: ks, s, st, st', hrel, h => by
     simp only [refRun] at h
-    cases hs : refStep true lit id hdr st k with
+    cases hs : refStep lit id hdr st k with
     | none => simp [hs] at h
     | some st1 =>
       simp only [hs, Option.bind] at h
@@ -672,7 +618,7 @@ theorem rel_init (cmp : Op → A → A → Bool) (id : Name) (hdr : Hdr) (hh : w
     (src : List (List (NCell A))) :
     Rel cmp id hdr (mkIterData src id hdr) ⟨[], [], .table hdr.names, []⟩ := by
   have hnd := wsHdr_names hh
-  refine ⟨⟨rfl, rfl⟩, fun r _ => rfl, ?_, ⟨rfl, rfl, fun k hk => hk, hnd⟩, rfl⟩
+  refine ⟨⟨rfl, rfl⟩, fun r _ => rfl, ?_, ⟨rfl, rfl, fun k hk => hk⟩, rfl⟩
   intro r hr
   refine ⟨.row r, ?_, ?_⟩
   · simp [refItem, applyInner, mapM_cellOf_self hdr.names hnd r (wsRow_length hdr r hr)]
